@@ -1,6 +1,7 @@
 """Per-property configuration of ./check: Lean obligations, differential families, relevance of a disagreement."""
 import re
 from vlib import Family
+from conc import Profile
 
 FULL = "STYRUVDABMHCO"
 ALLCFG = ("z:s", "b:a", "w:s", "w:a", "l:s", "l:a", "b:s", "z:a")
@@ -70,7 +71,31 @@ def fams_c19(tier, seed):
     ]
 
 
+LOCK_MACROS = {"try": 4, "tryrt": 4, "tryr": 4, "tryrrt": 4, "len": 2, "scount": 1, "send": 2, "recv": 2, "clones": 1, "drain": 1, "asend1": 1, "arecv1": 1}
+
+
+def conc_c17(tier, seed):
+    n = 300 if tier == "quick" else 6000
+    return [
+        (Profile("lock-contention", LOCK_MACROS, threads=(2, 4), ops=(2, 4), caps=("1", "2", "u"), n=n,
+                 strategies=("random", "uniform", "pct:2", "pct:4", "after:lock:1", "after:guard:2", "after:lock:3")),
+         ["mutex", "realtime", "stuck"], ["lifetime"]),
+    ]
+
+
 PROPS = {
+    "C17": dict(
+        level="proof",
+        lean_targets=["Kanal.Props.C17", "Kanal.Tie"],
+        props_files=["Kanal/Props/C17.lean", "Kanal/Tie.lean"],
+        leancheck=["Kanal.Props.C17", "Kanal.Tie", "Kanal.MutexM"],
+        families=lambda tier, seed: [],
+        conc=conc_c17,
+        relevant=lambda d: True,
+        trusted=["permission-transfer reading of release/acquire (not full C11)", "extractor reads the orderings of mutex.rs; cross-checked against the orderings the lock actually receives at run time (mutex monitor)"],
+        assumptions=COMMON_ASSUME + ["starvation-freedom under contention is not claimed (spin lock); progress = the attempt after a release succeeds unless another contender won"],
+        explanation="MutexM theorems for any number of threads and both parallelism branches of spin_cond, instantiated with the extracted orderings/constants (c17_this_tree); lock events of scheduled runs of the real crate are monitored for overlap, for the ordering arguments, and realtime calls for single-attempt/no-wait",
+    ),
     "C19": dict(
         level="proof",
         lean_targets=["Kanal.Props.C19"],
